@@ -41,7 +41,11 @@ func enumerate(c *lib.Ctx, maxLen int) []string {
 					b[i] = x
 				}
 			}
-			for _, s := range []string{string(prefix), string(b)} {
+			cands := []string{string(b)}
+			if c.Thorough() {
+				cands = append(cands, string(prefix)) // the model's own representative too
+			}
+			for _, s := range cands {
 				if !seen[s] {
 					seen[s] = true
 					out = append(out, s)
